@@ -27,13 +27,13 @@ type Ev struct {
 
 type Case struct {
 	// DupStore: the option list carries an earlier WithStore naming another store.
-	DupStore bool `json:"dup_store,omitempty"`
-	Config string `json:"config"`          // mem-stream mem-paged sqlite sqlite-batched sqlitemem sqlitemem-batched durable
-	Batch  int    `json:"batch,omitempty"` // replay batch size (paged paths; 0 = default) / sqlite stream batch
-	Chunk  int    `json:"chunk,omitempty"` // durable-streams chunk bytes
-	N      int    `json:"n"`
-	Start  int    `json:"start"`
-	Fill   string `json:"fill,omitempty"` // "" = appended directly to the store; "bus" = published through the replaying bus; "mixed" = first half published, rest appended by another writer afterwards
+	DupStore bool   `json:"dup_store,omitempty"`
+	Config   string `json:"config"`          // mem-stream mem-paged sqlite sqlite-batched sqlitemem sqlitemem-batched durable
+	Batch    int    `json:"batch,omitempty"` // replay batch size (paged paths; 0 = default) / sqlite stream batch
+	Chunk    int    `json:"chunk,omitempty"` // durable-streams chunk bytes
+	N        int    `json:"n"`
+	Start    int    `json:"start"`
+	Fill     string `json:"fill,omitempty"` // "" = appended directly to the store; "bus" = published through the replaying bus; "mixed" = first half published, rest appended by another writer afterwards
 	// Fault: none cberr cancel-before cancel-at store-read store-row sql-next
 	// sql-query http-err http-500 badrow; cancel-in-read cancels the context
 	// while the K-th store read (page, row fetch or HTTP request) is in flight
@@ -199,7 +199,7 @@ func Run(c *Case) *vkit.Outcome {
 			o.Class("durable_paged_replay_over_several_pages")
 		}
 	}
-	badAt := -1           // index (within the replayed suffix, 0-based) before which the bad row sits
+	badAt := -1 // index (within the replayed suffix, 0-based) before which the bad row sits
 	if c.Fault == "badrow" && c.K >= 1 && c.K <= c.N && sqlPath != "" {
 		if c.K >= c.Start {
 			badAt = c.K - c.Start
